@@ -213,6 +213,30 @@ function collectActual(node, out) {
   return out
 }
 
+function sitePaths(a) {
+  if (a.site === 'for') return { for: a.path === undefined ? null : a.path }
+  const at = a.node.attrs || {}
+  const o = {}
+  for (const ch of ['model', 'gp']) if (at[ch]) for (const k of Object.keys(at[ch])) o[ch + ':' + k] = at[ch][k] === undefined ? null : at[ch][k]
+  for (const ch of ['v', 'p', 'l']) if (at[ch]) for (const k of Object.keys(at[ch])) o[ch + ':' + k] = (at[ch][k] || {}).path === undefined ? null : at[ch][k].path
+  return o
+}
+
+function pathDiff(A, F) {
+  if (A.length !== F.length) return null        // structure differs: reported by the tree comparison
+  for (let i = 0; i < A.length; i += 1) {
+    if (A[i].site !== F[i].site) return null
+    const x = sitePaths(A[i])
+    const y = sitePaths(F[i])
+    for (const k of new Set(Object.keys(x).concat(Object.keys(y)))) {
+      const a = JSON.stringify(x[k] === undefined ? null : x[k])
+      const f = JSON.stringify(y[k] === undefined ? null : y[k])
+      if (a !== f) return { path: 'site ' + i + ' ' + k, want: f, got: a }
+    }
+  }
+  return null
+}
+
 function lpKeys(lp) { return lp.keys.map(toJS) }
 function lpGeneral(lp) {
   if (lp.root === 'data') return [0].concat(lpKeys(lp))
@@ -358,6 +382,11 @@ function runCase(G, c) {
         if (MERGE) fresh = mergeTexts(fresh)
         const d2 = diff(fresh, actual, '$')
         if (d2) { res.ok = false; res.problems.push({ step, what: 'tree differs from a fresh creation', diff: d2 }) }
+        else {
+          // the l-value paths the instance holds are part of its state: they too must be those of a fresh creation
+          const pd = pathDiff(collectActual(wrapper.shadowRoot, []), collectActual(w2.shadowRoot, []))
+          if (pd) { res.ok = false; res.problems.push({ step, what: 'l-value paths differ from a fresh creation', diff: pd }) }
+        }
         if (specTree !== undefined && specTree !== null) {
           const d3 = diff(MERGE ? mergeTexts(canonSpec(specTree)) : canonSpec(specTree), fresh, '$')
           if (d3) res.problems.push({ step, what: 'ORACLES-DISAGREE: fresh creation differs from the specification', diff: d3 })
@@ -411,6 +440,22 @@ function runCase(G, c) {
       break
     }
     check(i, w, s.tree, data)
+    if (c.paths && res.ok) {
+      // the paths handed to the runtime by this step (tree update or binding-map updaters) must again be the
+      // locations the expressions read under the NEW data
+      try {
+        const r2 = { ok: true, problems: [] }
+        checkPaths(r2, { tree: s.tree, pre: c.pre }, w, procGen, data)
+        for (const p of r2.problems) {
+          if (p.what.startsWith('tool:')) continue
+          res.ok = false
+          res.problems.push(Object.assign({}, p, { step: i, what: p.what + ' (after ' + s.op + ')' }))
+        }
+        res.pathsGiven = (res.pathsGiven || 0) + (r2.pathsGiven || 0)
+      } catch (e) {
+        res.problems.push({ step: i, what: 'tool: path check threw', msg: String(e && e.stack || e) })
+      }
+    }
   }
   return res
 }
